@@ -103,6 +103,17 @@ def generate(rng, tier):
             lines += ["X 0 0", "X 1 0", "PB 0 " + hx(text), "D 0", "X 3 0", "PB 3 " + hx(PROBES[0]), "D 3"]
             cases.append(Case("n%d" % n, lines, {"hist": [("nested", 0)], "probe": 0, "nested": True}))
             n += 1
+    # a callback that FREES another root context during a parse, after includes were used earlier in the process
+    # (accepted, aborted, nested): the rest of the running text must still be read
+    for pre in ([], [b'include("good.conf")\n'], [b'include("bad.conf")\n'], [b'include("good.conf")\n', b'include("self.conf")\n'],
+                [b'sec { x = 1 }\ninclude("good.conf")\ni = 3\n', b'include("dq.conf")\n']):
+        for host in (b'i = 1\nhook("free2")\ni = 7\nl = {5, 6}\ns = tail\n', b'sec { hook("free2") x = 4 }\ni = 8\n',
+                     b'include("good.conf")\nhook("free2")\ni = 9\n'):
+            cdir = "%s/n%d" % (root, n)
+            lines = schema_lines(SCHEMA) + ["CWD " + hx(cdir)] + ["FILE %s reg %s" % (hx(nm), hx(c)) for nm, c in FILES]
+            lines += ["X 0 0", "X 1 0"] + ["PB 1 " + hx(t) for t in pre] + ["X 2 0", "PB 0 " + hx(host), "D 0", "X 3 0", "PB 3 " + hx(PROBES[0]), "D 3"]
+            cases.append(Case("n%d" % n, lines, {"hist": [("free_in_callback", 0)], "probe": 0, "nested": True}))
+            n += 1
     # long random histories
     for _ in range(200 if tier == "quick" else 5000):
         h = [rng.choice(alphabet) for _ in range(rng.randint(4, 14))]
